@@ -30,6 +30,8 @@ type machineOpts struct {
 	Event       gen.EventOpts
 	SameEvent   bool // all log declarations use the same event (different selections)
 	BatchGEConc bool
+	// CustomDecls replaces the generated declarations (names, tables and sources are kept as given).
+	CustomDecls func(rt *rapid.T, pool *gen.Pool) []*refmodel.Decl
 }
 
 type machine struct {
@@ -93,6 +95,16 @@ func newMachine(rt *rapid.T, o machineOpts) *machine {
 	}
 	nd := rapid.IntRange(1, o.MaxDecls).Draw(rt, "ndecls")
 	var sharedEv *refmodel.Event
+	if o.CustomDecls != nil {
+		nd = 0
+		m.decls = o.CustomDecls(rt, m.pool)
+		for _, d := range m.decls {
+			if len(d.Sources) == 0 {
+				d.Sources = []refmodel.SourceRef{{Name: sources[0].Name}}
+			}
+			m.label("kind=" + d.Kind())
+		}
+	}
 	for i := 0; i < nd; i++ {
 		table := fmt.Sprintf("t%d", i+1)
 		if o.ShareTable && i > 0 && rapid.Bool().Draw(rt, "share") {
